@@ -8,6 +8,7 @@ import servergen as sg
 PID = "C09"
 
 FAULTS = ["garbage", "unknown_method", "wrong_types", "missing_params", "not_object", "truncated_json",
+          "deep_200_arr_p", "deep_200_obj_p", "deep_150_arr_m", "deep_127_obj_p",
           "truncated_then_eof", "eof_mid_burst", "eof_clean", "read_error", "write_error", "oversize",
           "empty_frame"]
 
@@ -35,7 +36,7 @@ def faulty_seq(rng, tags, cid, fault, place, limit):
     post = [valid() for _ in range(rng.randrange(0, 2))]
     seq = [["n", cid]]
     if fault in ("garbage", "unknown_method", "wrong_types", "missing_params", "not_object", "truncated_json") \
-            or fault.startswith("utf8_"):
+            or fault.startswith("utf8_") or fault.startswith("deep_"):
         stream = sg.wire(pre + [sg.bad_frame(fault, cid, tags.next())] + post)
         seq += [["a", cid, ch.hex()] for ch in sg.cut(stream, [rng.randrange(1, len(stream)) for _ in range(rng.randrange(0, 3))])]
     elif fault == "empty_frame":
@@ -58,6 +59,14 @@ def faulty_seq(rng, tags, cid, fault, place, limit):
         seq += [["fr", cid]]
         if post:
             seq += [["a", cid, sg.wire(post).hex()]]
+    elif fault.startswith("read_io:"):
+        # the read half fails with Error::Io(kind), once or persistently, at the start of a frame or inside one
+        _, kind, pers, where = fault.split(":")
+        stream = sg.wire(pre) + (valid()[:rng.randrange(1, 30)] if where == "mid" else b"")
+        if stream:
+            seq += [["a", cid, stream.hex()]]
+        seq += [sg.fr(cid, kind, pers == "1")]
+        seq += [["a", cid, sg.wire([valid()] + post).hex()]]
     elif fault == "write_error":
         calls = pre + [valid()] + post
         seq += [sg.fw(cid, place, rng.choice(sg.IO_KINDS))] + [["a", cid, sg.wire(calls).hex()]]
@@ -128,6 +137,28 @@ def gen_cases(ck, limit):
         m = sg.random_merge(rng, seqs)
         mask = rng.choice([(1 << len(m)) - 1, 0, rng.getrandbits(len(m)), rng.getrandbits(len(m))])
         add(sg.with_polls(m, mask), fids, hids, "random_%d_faults" % nf, {"faults": faults})
+    # (r) READ failures by io::ErrorKind: Error::Io(kind) for Interrupted, WouldBlock, TimedOut, ConnectionReset,
+    #     UnexpectedEof, Other, once or on every further read, at the start of a frame and in the middle of one:
+    #     at most that connection ends, the others get their replies, Server::run returns from the poll
+    for ki, kind in enumerate(sg.READ_KINDS):
+        for pers in ("0", "1"):
+            for where in ("start", "mid"):
+                for variant in range(2 if quick else 6):
+                    tags = sg.Tags()
+                    nh = 1 + (ki + variant) % 2
+                    ids = list(range(nh + 1))
+                    rng.shuffle(ids)
+                    f, hids = ids[0], ids[1:]
+                    fault = "read_io:%s:%s:%s" % (kind, pers, where)
+                    seqs = [faulty_seq(rng, tags, f, fault, variant % 2, limit)]
+                    for h in hids:
+                        hs, hv = healthy_seq(rng, tags, h, variant == 1)
+                        seqs.append(hs)
+                        if hv:
+                            seqs.append(hv)
+                    m = sg.random_merge(rng, seqs)
+                    add(sg.with_polls(m, (1 << len(m)) - 1 if variant == 0 else rng.getrandbits(len(m))), [f], hids,
+                        "read_error_by_kind", {"fault": fault})
     # (u) frames that are not UTF-8 (lone continuation bytes, truncated and overlong sequences, 0xff/0xfe, an
     #     encoded surrogate, beyond U+10FFFF), bare, before/after an otherwise valid call, inside a string
     #     parameter, inside the method name, inside a key: the connection ends, nobody else notices, and
@@ -255,6 +286,56 @@ def gen_cases(ck, limit):
     return cases
 
 
+def deep_pairs(ck):
+    """Deeply nested frames far above the hook limit (nohook harness): one well-framed call nested 200, 5000,
+    100000 levels deep (arrays / objects; parameters before or after the method).  The frame is generated
+    inside the harness from the recipe ["deep", c, depth, opener, pfirst]."""
+    rng = ck.rng
+    pairs = []
+    for depth in (200, 5000, 100000):
+        for opener in ("[", '{"a":'):
+            for pfirst in (1, 0):
+                tags = sg.Tags()
+                h = [sg.call("Count", 1, tags.next()), sg.call("Echo", 1, tags.next(), v=7)]
+                with_f = [["n", 1], ["n", 0], ["p"], ["a", 1, sg.wire(h[:1]).hex()], ["p"],
+                          ["a", 0, sg.wire([sg.call("Echo", 0, tags.next(), v=1)]).hex()], ["p"],
+                          ["deep", 0, depth, opener, pfirst], ["a", 1, sg.wire(h[1:]).hex()], ["p"],
+                          ["a", 1, sg.wire([sg.call("Count", 1, tags.next())]).hex()], ["p"], ["p"]]
+                without_f = [e for e in with_f if not (e[0] in ("n", "a", "deep") and e[1] == 0)]
+                info = {"fault": "deeply_nested_frame", "depth": depth, "opener": opener, "parameters_first": pfirst}
+                pairs.append(({"script": with_f, "tag": "deeply_nested_frame", "info": info, "nohook": True},
+                              {"script": without_f, "tag": "deeply_nested_frame_without", "info": info, "nohook": True}))
+    return pairs
+
+
+def check_deep(ck, pairs):
+    flat = [c for p in pairs for c in p]
+    res = sg.run_nohook(ck, flat, one_process_per_case=True)      # a process that dies takes only its own case
+    if res is None:
+        return
+    n = 0
+    for (cw, co), rw, ro in zip(pairs, res[0::2], res[1::2]):
+        msg = None
+        if rw.get("crash"):
+            msg = "the whole process died (no result: stack overflow / abort) on one client's frame"
+        elif rw.get("panic"):
+            msg = "Server::run panicked or exceeded its budget: %s" % (rw.get("why") or "")[:200]
+        elif rw.get("exited"):
+            msg = "the server future completed although the listener never failed"
+        elif 1 in sg.dropped(rw):
+            msg = "the healthy connection was dropped"
+        elif rw.get("sleeps"):
+            msg = "Server::run went to sleep although it could make progress: %s" % "; ".join(rw["sleeps"][:2])
+        elif not (ro.get("crash") or ro.get("panic")) and sg.writes_of(rw, 1) != sg.writes_of(ro, 1):
+            msg = "the healthy connection received different replies with and without the faulty client"
+        if msg and n < 5:
+            n += 1
+            ck.violation("deeply nested frame (%s): %s [deeply_nested_frame]" % (cw["info"], msg),
+                         {"case": cw, "impl_trace": sg.pretty_trace(rw)[-12:] if "polls" in rw else rw},
+                         tag="deep%d" % cw["id"])
+    ck.cov["deeply_nested_frame_pairs_without_hook_cfg"] = len(pairs)
+
+
 def main():
     ck = Check(PID)
     step, limit = sg.consts(ck)
@@ -263,12 +344,16 @@ def main():
     if ck.replay:
         rp = json.load(open(ck.replay))
         cases = []
-        if "case" in rp:
+        if "case" in rp and rp["case"].get("nohook"):
+            c = rp["case"]
+            check_deep(ck, [(c, dict(c, script=[e for e in c["script"] if not (e[0] in ("n", "a", "deep") and e[1] == 0)]))])
+        elif "case" in rp:
             c = rp["case"]
             c.pop("pair", None)
             cases = [c, dict(c, script=without(c["script"], c["faulty"]), pair=0)]
     else:
         cases = gen_cases(ck, limit)
+        check_deep(ck, deep_pairs(ck))
     out = sg.run_cases(ck, cases, step, limit, per_shard=40)
     byid = {c["id"]: (c, r, code) for c, r, code in out}
     fault_hist = {}
